@@ -20,6 +20,7 @@ import (
 	"github.com/prymitive/current"
 
 	"github.com/cloudflare/pint/internal/output"
+	"github.com/cloudflare/pint/internal/verifhook"
 )
 
 const (
@@ -148,6 +149,9 @@ func (prom *Prometheus) RangeQuery(ctx context.Context, expr string, params Rang
 
 		wg.Add(1)
 		go func() {
+			if verifhook.Enabled {
+				verifhook.At("promapi.slice", prom.name+"|"+prom.safeURI+"|"+expr+"|"+formatTime(s.Start)+"|"+formatTime(s.End))
+			}
 			var result queryResult
 			query.result = make(chan queryResult)
 			prom.queries <- query
